@@ -192,6 +192,17 @@ pub fn scenario_quiet(fam: Fam) -> BoxedStrategy<Scenario> {
         .boxed()
 }
 
+/// Scenario without a real logger but with every log level (Off..Trace): the arguments of the
+/// log macros are evaluated, nothing is printed
+pub fn scenario_levels(fam: Fam) -> BoxedStrategy<Scenario> {
+    scenario(fam)
+        .prop_map(|mut s| {
+            s.cfg.logger = LoggerKind::None;
+            s
+        })
+        .boxed()
+}
+
 /// Reference implementation of the statement's authorised destination MAC set.
 pub fn auth_macs(cfg: &Cfg) -> Vec<[u8; 6]> {
     let mut v = vec![cfg.mac, BCAST, ALLNODES];
